@@ -12,7 +12,7 @@ CHECKS = {
    note="NUL-free names and strings; configurations both writers accept (a writer rejecting an input is counted, not judged); ASan leak detection off.",
    technique="runtime monitoring: differential oracle (two implementations + source records) with compiler sanitizers (ASan, UBSan) on the C half"),
  "C18": dict(level="exploration", design="5/C18",
-   text="Mutated tables (17 mutation kinds incl. length-field edits with the footer CRC repaired, splices, zlib bombs, index scribbles, short files) of valid tables of every layout are fed, in a child process per batch, to NewReader and then to every reader entry point (scans, seeks, ReadRef, ReadLogAt, RefsFor, merged views with a valid table). Monitors: recover() around every call (panic = violation, signature = topmost reftable frame + panic class), child death (fatal error, OOM, signal), bytes allocated per call (runtime/metrics) <= 64 MiB + 64*len, records per iterator <= 2^24 + 8*len, CPU time per input <= 30 s (from /proc/<pid>/stat). The witness input is written to disk before the call. Thorough adds Go native coverage-guided fuzzing (FuzzReader, execution-count budget) with the same probe. Mutation kind log-plaintext (3 of 21): a log block is inflated, its plain records / restart table are edited (cut at any byte with a consistent restart table and block length, flips, byte sets, varint runs, restart-offset and count edits) and deflated again, so that the edit reaches the log record decoder instead of dying in the inflater.",
+   text="Mutated tables (16 byte-level mutation kinds plus one structure-aware kind incl. length-field edits with the footer CRC repaired, splices, zlib bombs, index scribbles, short files) of valid tables of every layout are fed, in a child process per batch, to NewReader and then to every reader entry point (scans, seeks, ReadRef, ReadLogAt, RefsFor, merged views with a valid table). Monitors: recover() around every call (panic = violation, signature = topmost reftable frame + panic class), child death (fatal error, OOM, signal), bytes allocated per call (runtime/metrics) <= 64 MiB + 64*len, records per iterator <= 2^24 + 8*len, CPU time per input <= 30 s (from /proc/<pid>/stat). The witness input is written to disk before the call. Thorough adds Go native coverage-guided fuzzing (FuzzReader, execution-count budget) with the same probe. Plus, per batch of 400, 66 extra mutants of kind log-plaintext from their own PRNG stream: a log block is inflated, its plain records / restart table are edited (cut at any byte with a consistent restart table and block length, flips, byte sets, varint runs, restart-offset and count edits) and deflated again, so that the edit reaches the log record decoder instead of dying in the inflater.",
    note="Quick tier is mutation-based only; inputs up to ~24 KB. The child has a 6 GiB address-space limit.",
    technique="runtime monitoring: crash/allocation/iteration/CPU monitors around the real reader on mutated inputs, process isolation per batch"),
  "C19": dict(level="exploration", design="5/C19",
